@@ -31,6 +31,14 @@ TABLE_APP = [
      "fragment": {"start": "for i in li..ui {", "count": 1,
                   "params": [("self", "MatmulHelper"), ("li", USZ), ("ui", USZ), ("lj", USZ), ("uj", USZ)],
                   "prologue": "let mut plan = vec![];", "result": "plan", "ret": ("vec", USZ)}},
+    {"file": CH, "fn": "decrypt_outputs_bfv", "impl": "MatmulHelper", "lean": "mm_output_positions", "model": "MM.outPos / decodeOutputs",
+     "effects": {"decryptor.decrypt(&outputs.data[di][dj], &mut pt)": "", "encoder.decode_polynomial(&pt, &mut buffer)": "",
+                 "buffer.resize(self.poly_degree, 0)": "",
+                 "dec[i * self.output_dims + j] = buffer[(i - li) * self.input_block * self.output_block + (j - lj) * self.input_block + self.input_block - 1]":
+                 "let p = (i - li) * self.input_block * self.output_block + (j - lj) * self.input_block + self.input_block - 1; assert!(p < self.poly_degree); plan.push(i * self.output_dims + j); plan.push(p);"},
+     "fragment": {"start": "decryptor.decrypt(&outputs.data[di][dj], &mut pt);", "count": 4,
+                  "params": [("self", "MatmulHelper"), ("li", USZ), ("ui", USZ), ("lj", USZ), ("uj", USZ)],
+                  "prologue": "let mut plan = vec![];", "result": "plan", "ret": ("vec", USZ)}},
     {"file": CV, "fn": "ceil_div", "lean": "cv_ceil_div", "model": "MM.ceilDiv"},
     {"file": CV, "fn": "new", "impl": "Conv2dHelper", "lean": "cv_new", "model": "MM.CHelper.new"},
     {"file": CV, "fn": "output_terms", "impl": "Conv2dHelper", "lean": "cv_output_terms", "model": "MM.cvOutputTerms"},
